@@ -272,6 +272,23 @@ def second_annotator(D):
     return [[s[0], [s[1][0], s[1][0] if s[0] % 2 else h.MISSING], [s[2][0], s[2][0]]] for s in D]
 
 
+FAR = np.array([[1e4, 1e4], [-1e4, 3e3], [2e4, -1e4], [5e3, 5e3], [-7e3, -7e3], [9e3, 1e3], [1e4, -2e4], [3e4, 3e4]])
+
+
+def full_pred(obj, task):
+    """h.predictions plus - for classifiers constructed with an integer random_state - the hard predictions on
+    far-away probe points (tied decisions are broken with the classifier's own generator: a fit that does not
+    re-derive the generator from the parameter makes the history visible here)"""
+    out = h.predictions(obj, task)
+    if task in ("clf", "multi") and isinstance(obj.get_params().get("random_state"), (int, np.integer)):
+        with warnings.catch_warnings():
+            warnings.simplefilter("ignore")
+            lab = np.asarray(obj.predict(FAR))
+        cls = list(getattr(obj, "classes_", [0, 1]))
+        out = out + [(cls.index(v) if v in cls else -7) * 1000 for v in lab.tolist()]
+    return out
+
+
 def _est_job(arg):
     ci, key, hi, tabseed = arg
     from sklearn.base import clone
@@ -298,7 +315,7 @@ def _est_job(arg):
             raised = None
             try:
                 h.train(obj, op, X, y, w, cfg["weights"])
-                pred = h.predictions(obj, task)
+                pred = full_pred(obj, task)
             except Exception as ex:
                 pred, raised = h.raised_outcome(ex, ids), h.exc_text(ex)
             n_eval += 1
@@ -308,7 +325,7 @@ def _est_job(arg):
                     rX, ry, rw = tab.data(rD, task, n_annot)
                     h.train(ref, rop, rX, ry, rw, cfg["weights"])
                     n_eval += 1
-                refpred = h.predictions(ref, task)
+                refpred = full_pred(ref, task)
             except Exception as ex:
                 refpred = h.raised_outcome(ex, ids)
             p, dd = h.observe(obj, owned, ids)
@@ -322,7 +339,12 @@ def _est_job(arg):
         elif op == "Predict":
             calls.append({"call": "predict_proba / predict on the probe points"})
             try:
-                pred = h.predictions(obj, task)
+                # the hard predictions on the far probes are made (they advance the classifier's generator, which
+                # is what a later fit must not see) but not compared here: breaking a tie twice may legitimately
+                # give two answers; the event carries the tie part of the last fit
+                tie = full_pred(obj, task)[len(h.predictions(obj, task)):]
+                last = [e for e in events if e["ev"] in ("Fit", "PartialFit")]
+                pred = h.predictions(obj, task) + (last[-1]["pred"][-len(tie):] if tie and last else tie)
             except Exception as ex:
                 events.append({"ev": "Raised", "call": "predict", "exc": h.exc_text(ex)})
                 break
